@@ -767,9 +767,13 @@ impl Core {
         client_ip: std::net::IpAddr,
         client_id: log_utils::IdChain<u64>,
     ) -> Result<(), String> {
+        // the listener logs a refusal exactly like this
         Self::on_new_tls_connection(context, acceptor, client_ip, client_id)
             .await
-            .map_err(|(_, m)| m)
+            .map_err(|(client_id, message)| {
+                log_id!(debug, client_id, "{}", message);
+                message
+            })
     }
 
     pub(crate) fn verif_evaluate_connection_rules(
